@@ -26,6 +26,7 @@ type Scenario struct {
 	Twin     bool   `json:"twin,omitempty"` // run an ideal node (never restarted, never crashed) in lockstep and log both
 	Lean     bool   `json:"lean,omitempty"` // log digests instead of full states (long histories)
 	Snap     int    `json:"snap,omitempty"` // attach a state-sync snapshot store taking a snapshot every `snap` blocks
+	RawBytes bool   `json:"rawBytes,omitempty"` // log the delivered bytes of every transaction (C23)
 	Det      bool   `json:"det,omitempty"`  // log the observable outputs (obs) of every call without a twin: joined with a second process' run afterwards (C08)
 }
 
@@ -66,6 +67,10 @@ type RecTx struct {
 	DupOf    string                 `json:"dupOf"`
 	Hash     string                 `json:"hash"`
 	Len      int                    `json:"len"`
+	// codec scenarios (C23): the delivered bytes, the account the node recovers from them, the account of the key that signed
+	RawB       []int  `json:"rawb,omitempty"`
+	Recovered  string `json:"recovered,omitempty"`
+	SignerAddr string `json:"signerAddr,omitempty"`
 }
 
 type RecResp struct {
@@ -696,6 +701,16 @@ func (c *runCtx) block(st *Step) {
 			Mut: bt.Spec.Mut, DupOf: bt.DupOf, Hash: shortHash(bt.Raw), Len: len(bt.Raw)}
 		if rtx.Type == "" {
 			rtx.Type = bt.Spec.Type
+		}
+		if c.sc.RawBytes {
+			rtx.RawB = make([]int, len(bt.Raw))
+			for k, x := range bt.Raw {
+				rtx.RawB[k] = int(x)
+			}
+			rtx.Recovered = recoveredSender(nd.N, bt.Raw)
+			if len(bt.SignedBy) > 0 {
+				rtx.SignerAddr = nd.N.AddrName(nd.N.Addr(bt.SignedBy[0]))
+			}
 		}
 		if rtx.Args == nil {
 			rtx.Args = map[string]interface{}{}
